@@ -1,6 +1,21 @@
 import TsV.Model.Lang.Common
 /-!
-# Model of `core/src/language/go.rs`  (stub: not modelled yet)
+# Model of `core/src/language/go.rs`
+
+`Go` overrides `Language::generate_types`: the items are rendered into a buffer first (filling the
+`imports` set on the way) and the import block is written between the `package` line and that
+buffer.  The only mutable printer state is `imports : BTreeSet<String>`; it is never cleared, so it
+is threaded through the items of a file *and* through the files of a run (`generateFrom`).
+
+Every declaration is first turned into a fact record (`GoField`, `GoStruct`, `GoConst`,
+`GoUnitEnum`, `GoAlgVariant`, `GoAlgEnum`, …) that says what is bound — names, types, wire names —
+and then rendered (`render*`); the `UnmarshalJSON` / `MarshalJSON` bodies are templates over the
+record's holes.
+
+`convert_acronyms_to_uppercase` mixes byte offsets (`match_indices`) with character counts
+(`chars().nth`, `replace_range(i..i + chars().count())`); it is modelled on UTF-8 byte offsets and
+can therefore panic (`String::replace_range` off a character boundary) exactly where Rust does.
+That makes every printer function an `Outcome`.
 -/
 namespace TsV.Lang.Go
 open TsV TsV.Lang
@@ -12,12 +27,522 @@ structure Cfg where
   uppercaseAcronyms : List Str := []
   noPointerSlice : Bool := false
 
+/-- `imports: BTreeSet<String>` as a sorted duplicate-free list -/
+abbrev Imports := List Str
+
+/-- `add_import` -/
+def addImport (st : Imports) (name : Str) : Imports := Parser.insertSorted Str.lt name st
+
+/-! ## `format_type` -/
+
+/-- `format_generic_parameters`: `[A, B]` -/
+def bracket (ps : List Str) : Str := s%"[" ++ Str.intercalate s%", " ps ++ s%"]"
+
+/-- the type-mapping prelude of `format_special_type` (looked up by `Display` of the special type);
+a mapped type returns before any import is recorded -/
+def special (cfg : Cfg) (t : RustType) (st : Imports) (k : Imports → Outcome (Str × Imports)) :
+    Outcome (Str × Imports) :=
+  match mapGet cfg.typeMappings t.display with
+  | some m => .ok (m, st)
+  | none => k st
+
+/-- the leaf arms of `format_special_type`: Go type and the import it needs -/
+def primType : Prim → Str × Option Str
+  | .unit => (s%"struct{}", none)
+  | .string => (s%"string", none)
+  | .char => (s%"rune", none)
+  | .i8 | .u8 | .u16 | .i32 | .i16 | .isize | .usize => (s%"int", none)
+  | .u32 => (s%"uint32", none)
+  | .i54 | .i64 => (s%"int64", none)
+  | .u53 | .u64 => (s%"uint64", none)
+  | .bool => (s%"bool", none)
+  | .f32 => (s%"float32", none)
+  | .f64 => (s%"float64", none)
+  | .dateTime => (s%"time.Time", some s%"time")
+
+mutual
+  /-- `Language::format_type` for Go (default `format_simple_type` / `format_generic_type`, Go's
+  `format_special_type`).  The `generic_types` argument is ignored by every arm, so it is dropped.
+  No arm produces a `RustTypeFormatError` (`GenericsForbiddenInGo` is never constructed). -/
+  def formatType (cfg : Cfg) : RustType → Imports → Outcome (Str × Imports)
+    | .simple id, st => .ok ((mapGet cfg.typeMappings id).getD id, st)
+    | .generic id ps, st =>
+      match mapGet cfg.typeMappings id with
+      | some m => .ok (m, st)
+      | none =>
+        (formatTypes cfg ps st).bind fun (strs, st) =>
+          .ok ((mapGet cfg.typeMappings id).getD id ++ (if strs.isEmpty then [] else bracket strs), st)
+    | t@(.vec r), st => special cfg t st fun st =>
+        (formatType cfg r st).bind fun (s, st) => .ok (s%"[]" ++ s, st)
+    | t@(.array r n), st => special cfg t st fun st =>
+        (formatType cfg r st).bind fun (s, st) => .ok (s%"[" ++ Str.natToStr n ++ s%"]" ++ s, st)
+    | t@(.slice r), st => special cfg t st fun st =>
+        (formatType cfg r st).bind fun (s, st) => .ok (s%"[]" ++ s, st)
+    | t@(.option r), st => special cfg t st fun st =>
+        (formatType cfg r st).bind fun (s, st) =>
+          .ok ((if r.isVec && cfg.noPointerSlice then [] else s%"*") ++ s, st)
+    | t@(.hashMap k v), st => special cfg t st fun st =>
+        (formatType cfg k st).bind fun (ks, st) =>
+        (formatType cfg v st).bind fun (vs, st) => .ok (s%"map[" ++ ks ++ s%"]" ++ vs, st)
+    | t@(.prim p), st => special cfg t st fun st =>
+        match primType p with
+        | (g, some imp) => .ok (g, addImport st imp)
+        | (g, none) => .ok (g, st)
+  def formatTypes (cfg : Cfg) : List RustType → Imports → Outcome (List Str × Imports)
+    | [], st => .ok ([], st)
+    | t :: ts, st =>
+      (formatType cfg t st).bind fun (s, st) =>
+      (formatTypes cfg ts st).bind fun (ss, st) => .ok (s :: ss, st)
+end
+
+/-! ## `convert_acronyms_to_uppercase` -/
+
+/-- UTF-8 length in bytes -/
+def utf8Len (s : Str) : Nat := s.foldl (fun n c => n + c.utf8Size) 0
+
+/-- all character boundaries of `s` as byte offsets from `off` (what `match_indices("")` yields) -/
+def boundaries : Nat → Str → List Nat
+  | off, [] => [off]
+  | off, c :: t => off :: boundaries (off + c.utf8Size) t
+
+/-- `name.match_indices(pat)`: byte offsets of the non-overlapping matches, left to right -/
+def matchIndices (name pat : Str) : List Nat :=
+  if pat.isEmpty then boundaries 0 name else go name.length 0 name
+where
+  go : Nat → Nat → Str → List Nat
+    | 0, _, _ => []
+    | _, _, [] => []
+    | fuel+1, off, s@(c :: t) =>
+      if Str.startsWith s pat then off :: go fuel (off + utf8Len pat) (s.drop pat.length)
+      else go fuel (off + c.utf8Size) t
+
+/-- split at a byte offset; `none` when the offset is not a character boundary (or past the end) -/
+def splitAtByte : Str → Nat → Option (Str × Str)
+  | s, 0 => some ([], s)
+  | [], _+1 => none
+  | c :: t, n+1 =>
+    if c.utf8Size ≤ n+1 then (splitAtByte t (n+1 - c.utf8Size)).map fun (a, b) => (c :: a, b)
+    else none
+
+/-- `String::replace_range(lo..hi, rep)` (`lo ≤ hi`): the range check of `slice::range` comes first
+(not `#[track_caller]`: reported inside `core`), then the two `is_char_boundary` assertions
+(`#[track_caller]`: reported at go.rs:594).  In `convertAcronyms` the first branch is kept for
+fidelity only: `res` never gets shorter than `name` (k matched characters = k replaced bytes are
+replaced by the ≥ k bytes of the upper-cased pattern), so `hi ≤ |name| ≤ |res|`. -/
+def replaceRange (res : Str) (lo hi : Nat) (rep : Str) : Outcome Str :=
+  if utf8Len res < hi then .panic s%"index.rs:1020"
+  else
+    match splitAtByte res lo with
+    | none => .panic s%"go.rs:594"
+    | some (a, rest) =>
+      match splitAtByte rest (hi - lo) with
+      | none => .panic s%"go.rs:594"
+      | some (_, b) => .ok (a ++ rep ++ b)
+
+/-- one acronym: the matches are searched in the *original* `name` (byte offset `i`), the test
+`name.chars().nth(i + acronym_len)` indexes *characters* with that byte offset, and the replacement
+is applied to `res` at *bytes* `i .. i + acronym_len` where `acronym_len` is a character count -/
+def applyAcronym (U : UnicodeOps) (name : Str) (res : Str) (a : Str) : Outcome Str :=
+  let pat := Rename.toPascal a
+  let len := pat.length
+  (matchIndices name pat).foldlM (init := res) fun res i =>
+    if ((name[i + len]?).map fun c => !U.isLower c).getD true then
+      replaceRange res i (i + len) (U.upperStr pat)
+    else .ok res
+
+/-- `convert_acronyms_to_uppercase(acronyms, name)` -/
+def convertAcronyms (U : UnicodeOps) (acronyms : List Str) (name : Str) : Outcome Str :=
+  acronyms.foldlM (init := name) (applyAcronym U name)
+
+/-- `Go::acronyms_to_uppercase` -/
+def acr (U : UnicodeOps) (cfg : Cfg) (name : Str) : Outcome Str :=
+  convertAcronyms U cfg.uppercaseAcronyms name
+
+/-- `Go::format_field_name(name, exported = true)` -/
+def fieldName (U : UnicodeOps) (cfg : Cfg) (name : Str) : Outcome Str := acr U cfg (Rename.toPascal name)
+
+/-! ## comments -/
+
+/-- `write_comments` -/
+def comments (indent : Nat) (cs : List Str) : Str :=
+  cs.flatMap fun c => tabs indent ++ s%"// " ++ c ++ nl
+
+/-! ## structs -/
+
+/-- what one struct field line binds -/
+structure GoField where
+  comments : List Str
+  name : Str          -- exported Go field name
+  ty : Str            -- Go type as printed, including a leading `*`
+  jsonName : Str      -- the key inside the json tag (already escaped like `{:?}`)
+  omitempty : Bool
+deriving Repr, Inhabited, DecidableEq
+
+def renderField (f : GoField) : Str :=
+  comments 1 f.comments ++ s%"\t" ++ f.name ++ s%" " ++ f.ty ++ s%" `json:\"" ++ f.jsonName ++
+    (if f.omitempty then s%",omitempty" else []) ++ s%"\"`\n"
+
+/-- `&formatted[1..formatted.len() - 1]` of `format!("{:?}", s)` -/
+def debugInner (s : Str) : Str := ((debugStr s).drop 1).dropLast
+
+/-- `write_field` as a fact record plus the state update.  A `#[typeshare(go(type = ".."))]`
+override bypasses `format_type`, hence records no import. -/
+def fieldFacts (U : UnicodeOps) (cfg : Cfg) (f : RustField) (st : Imports) : Outcome (GoField × Imports) :=
+  (match typeOverride f .go with
+   | some t => Outcome.ok (t, st)
+   | none => formatType cfg f.ty st).bind fun (typeName, st) =>
+  (acr U cfg typeName).bind fun goType =>
+  (fieldName U cfg f.id.original).bind fun name =>
+    .ok ({ comments := f.comments, name,
+           ty := (if f.hasDefault && !f.ty.isOptional then s%"*" else []) ++ goType,
+           jsonName := debugInner f.id.renamed,
+           omitempty := f.ty.isOptional || f.hasDefault }, st)
+
+def fieldsFacts (U : UnicodeOps) (cfg : Cfg) : List RustField → Imports → Outcome (List GoField × Imports)
+  | [], st => .ok ([], st)
+  | f :: fs, st =>
+    (fieldFacts U cfg f st).bind fun (g, st) =>
+    (fieldsFacts U cfg fs st).bind fun (gs, st) => .ok (g :: gs, st)
+
+/-- what a `type X struct` declaration binds -/
+structure GoStruct where
+  comments : List Str
+  name : Str                -- declared under `acr(id.renamed)`
+  generics : List Str       -- `[T any, U any]`
+  fields : List GoField
+deriving Repr, Inhabited, DecidableEq
+
+def renderStruct (d : GoStruct) : Str :=
+  comments 0 d.comments ++ s%"type " ++ d.name ++
+    (if d.generics.isEmpty then [] else
+      s%"[" ++ Str.intercalate s%", " (d.generics.map (· ++ s%" any")) ++ s%"]") ++
+    s%" struct {\n" ++ d.fields.flatMap renderField ++ s%"}\n"
+
+/-- `write_struct` -/
+def structFacts (U : UnicodeOps) (cfg : Cfg) (rs : RustStruct) (st : Imports) : Outcome (GoStruct × Imports) :=
+  (acr U cfg rs.id.renamed).bind fun name =>
+  (fieldsFacts U cfg rs.fields st).bind fun (fields, st) =>
+    .ok ({ comments := rs.comments, name, generics := rs.genericTypes, fields }, st)
+
+def writeStruct (U : UnicodeOps) (cfg : Cfg) (rs : RustStruct) (st : Imports) : Outcome (Str × Imports) :=
+  (structFacts U cfg rs st).bind fun (d, st) => .ok (renderStruct d, st)
+
+/-! ## aliases and constants -/
+
+structure GoAlias where
+  comments : List Str
+  name : Str          -- declared under `acr(id.original)`
+  ty : Str
+deriving Repr, Inhabited, DecidableEq
+
+def renderAlias (a : GoAlias) : Str :=
+  comments 0 a.comments ++ s%"type " ++ a.name ++ s%" " ++ a.ty ++ s%"\n\n"
+
+/-- `write_type_alias` (the alias' own generic parameters are dropped) -/
+def aliasFacts (U : UnicodeOps) (cfg : Cfg) (a : RustTypeAlias) (st : Imports) : Outcome (GoAlias × Imports) :=
+  (acr U cfg a.id.original).bind fun name =>
+  (formatType cfg a.ty st).bind fun (ty, st) =>
+    .ok ({ comments := a.comments, name, ty }, st)
+
+def writeAlias (U : UnicodeOps) (cfg : Cfg) (a : RustTypeAlias) (st : Imports) : Outcome (Str × Imports) :=
+  (aliasFacts U cfg a st).bind fun (d, st) => .ok (renderAlias d, st)
+
+structure GoValue where
+  name : Str          -- `id.renamed.to_pascal_case()` (no acronym pass)
+  ty : Str
+  value : Nat
+deriving Repr, Inhabited, DecidableEq
+
+def renderValue (c : GoValue) : Str :=
+  s%"const " ++ c.name ++ s%" " ++ c.ty ++ s%" = " ++ Str.natToStr c.value ++ s%"\n"
+
+/-- `write_const` -/
+def constFacts (cfg : Cfg) (c : RustConst) (st : Imports) : Outcome (GoValue × Imports) :=
+  (formatType cfg c.ty st).bind fun (ty, st) =>
+    .ok ({ name := Rename.toPascal c.id.renamed, ty, value := c.expr }, st)
+
+def writeConst (cfg : Cfg) (c : RustConst) (st : Imports) : Outcome (Str × Imports) :=
+  (constFacts cfg c st).bind fun (d, st) => .ok (renderValue d, st)
+
+/-! ## enums -/
+
+/-- one line of a `const ( … )` block: `\tName Type = "wire"` -/
+structure GoConst where
+  comments : List Str
+  name : Str
+  ty : Str
+  wire : Str          -- `id.renamed`, printed with `{:?}`
+deriving Repr, Inhabited, DecidableEq
+
+/-- what a unit enum binds: `type T string` and one string constant per variant -/
+structure GoUnitEnum where
+  comments : List Str
+  name : Str          -- declared under `acr(id.original)`
+  consts : List GoConst
+deriving Repr, Inhabited, DecidableEq
+
+def renderUnitEnum (e : GoUnitEnum) : Str :=
+  comments 0 e.comments ++ s%"type " ++ e.name ++ s%" string\n" ++ s%"const (" ++
+    (e.consts.flatMap fun c =>
+      nl ++ comments 1 c.comments ++ s%"\t" ++ c.name ++ s%" " ++ c.ty ++ s%" = " ++ debugStr c.wire) ++
+    s%"\n)\n"
+
+/-- the closure of the `RustEnum::Unit` arm; a non-unit variant hits `unreachable!()` -/
+def unitConsts (U : UnicodeOps) (cfg : Cfg) (original : Str) : List RustEnumVariant → Outcome (List GoConst)
+  | [] => .ok []
+  | .unit id cs :: vs =>
+    (acr U cfg original).bind fun en =>
+    (acr U cfg id.original).bind fun vn =>
+    (unitConsts U cfg original vs).bind fun rest =>
+      .ok ({ comments := cs, name := en ++ vn, ty := en, wire := id.renamed } :: rest)
+  | _ :: _ => .panic s%"go.rs:301"
+
+/-- the payload of an algebraic variant -/
+structure GoPayload where
+  ty : Str            -- `formatted_variant_type`
+  /-- `("*", "", "")`: accessor returns and constructor takes a pointer (anonymous struct variants
+  and payload types that are structs or aliases of structs); otherwise `("", "*", "&")` -/
+  byPointer : Bool
+deriving Repr, Inhabited, DecidableEq
+
+structure GoAlgVariant where
+  comments : List Str
+  name : Str          -- `variant_name` = accessor method name
+  constName : Str     -- `variant_type_const`
+  wire : Str          -- `id.renamed`
+  payload : Option GoPayload
+deriving Repr, Inhabited, DecidableEq
+
+/-- what an algebraic enum binds -/
+structure GoAlgEnum where
+  comments : List Str
+  anonymous : List GoStruct   -- named types of the struct variants, written first
+  name : Str                  -- `struct_name` = `acr(id.original)`
+  short : Str                 -- receiver name
+  keyType : Str               -- `variant_key_type`
+  tagField : Str
+  contentField : Str
+  tagKey : Str
+  contentKey : Str
+  variants : List GoAlgVariant
+deriving Repr, Inhabited, DecidableEq
+
+def renderDecodeCase (e : GoAlgEnum) (v : GoAlgVariant) : Str :=
+  s%"\tcase " ++ v.constName ++ s%":\n" ++
+  match v.payload with
+  | some p => s%"\t\tvar res " ++ p.ty ++ s%"\n\t\t" ++ e.short ++ s%"." ++ e.contentField ++ s%" = &res\n"
+  | none => s%"\t\treturn nil\n"
+
+def renderAccessor (e : GoAlgEnum) (v : GoAlgVariant) : Str :=
+  match v.payload with
+  | some p =>
+    s%"func (" ++ e.short ++ s%" " ++ e.name ++ s%") " ++ v.name ++ s%"() " ++
+      (if p.byPointer then s%"*" else []) ++ p.ty ++ s%" {\n" ++
+    s%"\tres, _ := " ++ e.short ++ s%"." ++ e.contentField ++ s%".(*" ++ p.ty ++ s%")\n" ++
+    s%"\treturn " ++ (if p.byPointer then [] else s%"*") ++ s%"res\n}\n"
+  | none => []
+
+def renderConstructor (e : GoAlgEnum) (v : GoAlgVariant) : Str :=
+  match v.payload with
+  | some p =>
+    s%"func New" ++ v.constName ++ s%"(content " ++ (if p.byPointer then s%"*" else []) ++ p.ty ++ s%") " ++
+      e.name ++ s%" {\n" ++
+    s%"    return " ++ e.name ++ s%"{\n" ++
+    s%"        " ++ e.tagField ++ s%": " ++ v.constName ++ s%",\n" ++
+    s%"        " ++ e.contentField ++ s%": " ++ (if p.byPointer then [] else s%"&") ++ s%"content,\n" ++
+    s%"    }\n}\n"
+  | none =>
+    s%"func New" ++ v.constName ++ s%"() " ++ e.name ++ s%" {\n" ++
+    s%"    return " ++ e.name ++ s%"{\n" ++
+    s%"        " ++ e.tagField ++ s%": " ++ v.constName ++ s%",\n" ++
+    s%"    }\n}\n"
+
+/-- the `UnmarshalJSON` method: holes are receiver, type, key type, tag / content keys and fields,
+and the decode cases -/
+def renderUnmarshal (e : GoAlgEnum) : Str :=
+  s%"func (" ++ e.short ++ s%" *" ++ e.name ++ s%") UnmarshalJSON(data []byte) error {\n" ++
+  s%"\tvar enum struct {\n" ++
+  s%"\t\tTag    " ++ e.keyType ++ s%"   `json:\"" ++ e.tagKey ++ s%"\"`\n" ++
+  s%"\t\tContent json.RawMessage `json:\"" ++ e.contentKey ++ s%"\"`\n" ++
+  s%"\t}\n" ++
+  s%"\tif err := json.Unmarshal(data, &enum); err != nil {\n\t\treturn err\n\t}\n\n" ++
+  s%"\t" ++ e.short ++ s%"." ++ e.tagField ++ s%" = enum.Tag\n" ++
+  s%"\tswitch " ++ e.short ++ s%"." ++ e.tagField ++ s%" {\n" ++
+  e.variants.flatMap (renderDecodeCase e) ++ s%"\n\t}\n" ++
+  s%"\tif err := json.Unmarshal(enum.Content, &" ++ e.short ++ s%"." ++ e.contentField ++ s%"); err != nil {\n" ++
+  s%"\t\treturn err\n\t}\n\n\treturn nil\n}\n"
+
+/-- the `MarshalJSON` method -/
+def renderMarshal (e : GoAlgEnum) : Str :=
+  s%"func (" ++ e.short ++ s%" " ++ e.name ++ s%") MarshalJSON() ([]byte, error) {\n" ++
+  s%"    var enum struct {\n" ++
+  s%"\t\tTag    " ++ e.keyType ++ s%"   `json:\"" ++ e.tagKey ++ s%"\"`\n" ++
+  s%"\t\tContent interface{} `json:\"" ++ e.contentKey ++ s%",omitempty\"`\n" ++
+  s%"    }\n" ++
+  s%"    enum.Tag = " ++ e.short ++ s%"." ++ e.tagField ++ s%"\n" ++
+  s%"    enum.Content = " ++ e.short ++ s%"." ++ e.contentField ++ s%"\n" ++
+  s%"    return json.Marshal(enum)\n}\n"
+
+def renderAlgEnum (e : GoAlgEnum) : Str :=
+  e.anonymous.flatMap renderStruct ++
+  comments 0 e.comments ++
+  s%"type " ++ e.keyType ++ s%" string\n" ++ s%"const (\n" ++
+  (e.variants.flatMap fun v =>
+    comments 1 v.comments ++ s%"\t" ++ v.constName ++ s%" " ++ e.keyType ++ s%" = " ++ debugStr v.wire ++ nl) ++
+  s%")\n" ++
+  s%"type " ++ e.name ++ s%" struct{ \n" ++
+  s%"\t" ++ e.tagField ++ s%" " ++ e.keyType ++ s%" `json:" ++ debugStr e.tagKey ++ s%"`\n" ++
+  s%"\t" ++ e.contentField ++ s%" interface{}\n" ++
+  s%"}\n" ++
+  nl ++ renderUnmarshal e ++ nl ++ renderMarshal e ++ nl ++
+  e.variants.flatMap (renderAccessor e) ++ nl ++
+  e.variants.flatMap (renderConstructor e) ++ nl
+
+/-- `make_anonymous_struct_name(variant_name)` -/
+def anonName (U : UnicodeOps) (cfg : Cfg) (e : RustEnum) (variantName : Str) : Outcome Str :=
+  acr U cfg (e.id.original ++ variantName ++ s%"Inner")
+
+/-- `write_types_for_anonymous_structs`: the struct is *declared* under
+`make_anonymous_struct_name(variant.id.original)` -/
+def anonStructs (U : UnicodeOps) (cfg : Cfg) (e : RustEnum) :
+    List (Id × List RustField) → Imports → Outcome (List GoStruct × Imports)
+  | [], st => .ok ([], st)
+  | (id, fs) :: rest, st =>
+    (anonName U cfg e id.original).bind fun structName =>
+    (structFacts U cfg (anonymousStruct e structName id.original fs) st).bind fun (d, st) =>
+    (anonStructs U cfg e rest st).bind fun (ds, st) => .ok (d :: ds, st)
+
+/-- the loop body over the variants of an algebraic enum.  A struct variant *refers* to its named
+type as `make_anonymous_struct_name(acr(variant.id.original))`. -/
+def algVariant (U : UnicodeOps) (cfg : Cfg) (e : RustEnum) (structName tagKey : Str) (customStructs : List Str)
+    (v : RustEnumVariant) (st : Imports) : Outcome (GoAlgVariant × Imports) :=
+  (acr U cfg v.id.original).bind fun variantName =>
+  (match v with
+   | .tuple _ _ ty =>
+     match formatType cfg ty st with
+     | .ok (t, st) => Outcome.ok (some t, st)
+     | .err _ => .panic s%"go.rs:333"
+     | .panic s => .panic s
+   | .anonymousStruct _ _ _ => (anonName U cfg e variantName).bind fun n => .ok (some n, st)
+   | .unit _ _ => .ok (none, st)).bind fun (variantType, st) =>
+  (acr U cfg (Rename.toPascal tagKey)).bind fun tagPart =>
+  let constName := structName ++ tagPart ++ s%"Variant" ++ variantName
+  (match variantType with
+   | some t =>
+     let byPointer := match v with
+       | .anonymousStruct _ _ _ => true
+       | _ => customStructs.contains t
+     (acr U cfg t).bind fun ft => .ok (some ({ ty := ft, byPointer } : GoPayload))
+   | none => .ok none).bind fun payload =>
+    .ok ({ comments := v.comments, name := variantName, constName, wire := v.id.renamed, payload }, st)
+
+def algVariants (U : UnicodeOps) (cfg : Cfg) (e : RustEnum) (structName tagKey : Str) (customStructs : List Str) :
+    List RustEnumVariant → Imports → Outcome (List GoAlgVariant × Imports)
+  | [], st => .ok ([], st)
+  | v :: vs, st =>
+    (algVariant U cfg e structName tagKey customStructs v st).bind fun (g, st) =>
+    (algVariants U cfg e structName tagKey customStructs vs st).bind fun (gs, st) => .ok (g :: gs, st)
+
+/-- `shared.id.original[..1].to_lowercase()`: a byte slice — panics unless the first character is
+one byte long (and on the empty string) -/
+def shortName (U : UnicodeOps) (original : Str) : Outcome Str :=
+  match original with
+  | c :: _ => if c.utf8Size == 1 then .ok (U.lowerStr [c]) else .panic s%"go.rs:315"
+  | [] => .panic s%"go.rs:315"
+
+/-- the `RustEnum::Algebraic` arm of `write_enum` -/
+def algEnumFacts (U : UnicodeOps) (cfg : Cfg) (e : RustEnum) (tagKey contentKey : Str)
+    (customStructs : List Str) (st : Imports) : Outcome (GoAlgEnum × Imports) :=
+  (anonStructs U cfg e (structVariants e) st).bind fun (anonymous, st) =>
+  (acr U cfg e.id.original).bind fun name =>
+  let contentField := Rename.toCamel contentKey
+  (fieldName U cfg tagKey).bind fun tagField =>
+  (shortName U e.id.original).bind fun short =>
+  (acr U cfg tagKey).bind fun tagAcr =>
+  let keyType := name ++ Rename.toPascal tagAcr ++ s%"s"
+  (algVariants U cfg e name tagKey customStructs e.variants st).bind fun (variants, st) =>
+    .ok ({ comments := e.comments, anonymous, name, short, keyType, tagField, contentField,
+           tagKey, contentKey, variants }, st)
+
+/-- `Go::write_enum` -/
+def writeEnum (U : UnicodeOps) (cfg : Cfg) (e : RustEnum) (customStructs : List Str) (st : Imports) :
+    Outcome (Str × Imports) :=
+  match e.keys with
+  | none =>
+    -- `write_types_for_anonymous_structs` runs for unit enums too (it finds nothing unless the
+    -- `unreachable!()` is about to fire)
+    (anonStructs U cfg e (structVariants e) st).bind fun (anonymous, st) =>
+    (acr U cfg e.id.original).bind fun name =>
+    (unitConsts U cfg e.id.original e.variants).bind fun consts =>
+      .ok (anonymous.flatMap renderStruct ++ renderUnitEnum { comments := e.comments, name, consts }, st)
+  | some (tagKey, contentKey) =>
+    (algEnumFacts U cfg e tagKey contentKey customStructs st).bind fun (d, st) => .ok (renderAlgEnum d, st)
+
+/-! ## files -/
+
+/-- `types_mapping_to_struct`: the structs' original names, then — in item order — every alias
+whose target's `id()` is already in the set (only membership is ever asked of this `HashSet`) -/
+def typesMappingToStruct (items : List RustItem) : List Str :=
+  let structs := items.filterMap fun it => match it with
+    | .struct s => some s.id.original
+    | _ => none
+  items.foldl (fun set it => match it with
+    | .alias a => if set.contains a.ty.id then a.id.original :: set else set
+    | _ => set) structs
+
+def writeItem (U : UnicodeOps) (cfg : Cfg) (customStructs : List Str) (it : RustItem) (st : Imports) :
+    Outcome (Str × Imports) :=
+  match it with
+  | .enum e => writeEnum U cfg e customStructs st
+  | .struct s => writeStruct U cfg s st
+  | .alias a => writeAlias U cfg a st
+  | .const c => writeConst cfg c st
+
+def writeItems (U : UnicodeOps) (cfg : Cfg) (customStructs : List Str) :
+    List RustItem → Imports → Outcome (Str × Imports)
+  | [], st => .ok ([], st)
+  | it :: its, st =>
+    (writeItem U cfg customStructs it st).bind fun (a, st) =>
+    (writeItems U cfg customStructs its st).bind fun (b, st) => .ok (a ++ b, st)
+
+/-- the text `begin_file` writes (it also records the import `encoding/json`) -/
+def beginFile (cfg : Cfg) : Str :=
+  (match cfg.versionHeader with
+   | some v => s%"// Code generated by typeshare " ++ v ++ s%". DO NOT EDIT.\n"
+   | none => []) ++
+  s%"package " ++ cfg.package ++ nl ++ nl
+
+/-- `write_all_imports` -/
+def renderImports (imports : Imports) : Str :=
+  match imports with
+  | [] => []
+  | [i] => s%"import \"" ++ i ++ s%"\"\n" ++ nl
+  | _ => s%"import (\n" ++ (imports.flatMap fun i => s%"\t\"" ++ i ++ s%"\"\n") ++ s%")\n" ++ nl
+
+/-- `Go::generate_types` for one output file; `st0` is the import set left behind by the files
+generated before this one (the same `Go` value is reused for every crate and `imports` is never
+cleared) -/
+def generate (U : UnicodeOps) (cfg : Cfg) (d : ParsedData) (st0 : Imports) : Outcome (Str × Imports) :=
+  let st := addImport st0 s%"encoding/json"
+  match Pipeline.generateOrder d with
+  | none => .panic s%"topsort"
+  | some items =>
+    (writeItems U cfg (typesMappingToStruct items) items st).bind fun (body, st) =>
+      .ok (beginFile cfg ++ renderImports st ++ body, st)
+
+def generateFrom (U : UnicodeOps) (cfg : Cfg) :
+    List (Str × ParsedData × Option Pipeline.ScopedCrateTypes) → Imports → Outcome (List (Str × Str))
+  | [], _ => .ok []
+  | (crate, d, _) :: rest, st =>
+    (generate U cfg d st).bind fun (text, st) =>
+    (generateFrom U cfg rest st).bind fun outs => .ok ((crate, text) :: outs)
+
 /-- all output files of one run: `jobs` are the crates in map order with their reconciled data and
-(in multi-file mode) the imports `used_imports` computed.  Returns (crate ↦ text) in the same order
-(plus, for Swift in multi-file mode, what `post_generation` writes, under the key
-`<post>/<file name>`). -/
-def generateAll (E : Ext) (cfg : Cfg) (multiFile : Bool)
+(in multi-file mode) the imports `used_imports` computed — Go's `generate_types` never looks at
+them (`write_imports` is `unimplemented!()` and never called).  Returns (crate ↦ text) in the same
+order. -/
+def generateAll (E : Ext) (cfg : Cfg) (_multiFile : Bool)
     (jobs : List (Str × ParsedData × Option Pipeline.ScopedCrateTypes)) : Outcome (List (Str × Str)) :=
-  .err (.formatError s%"unmodelled-language")
+  generateFrom E.U cfg jobs []
 
 end TsV.Lang.Go
